@@ -40,4 +40,9 @@ example : validateUtf8 [0xC3, 0xA9] = true ∧ validateUtf8 [0xC3] = false ∧
     validateUtf8 [0xF4, 0x90, 0x80, 0x80] = false ∧ validateUtf8 [0xF0, 0x9F, 0x98, 0x80] = true := by
   decide
 
+/-- generated fact: iteration is receiving — `__iter__` is exactly `while True: yield self.recv()`, `__next__` is
+    `return self.recv()`, `next` is `return self.__next__()`; the model's one receive operation stands for all of them (the
+    correspondence runs every other session through these spellings). -/
+theorem iteration_is_recv : Gen.iterationIsRecv = true := by decide
+
 end WS.Props.C06
